@@ -598,6 +598,10 @@ func C16(c *core.Ctx) {
 	if c.HasViolation() || c.Expired() {
 		return
 	}
+	wsScenarios(c, "C16", dev)
+	if c.HasViolation() || c.Expired() {
+		return
+	}
 	c16hostile(c)
 }
 
